@@ -1,6 +1,8 @@
 package main
 
 import (
+	"encoding/base64"
+	"encoding/json"
 	"bytes"
 	"crypto/ecdsa"
 	"crypto/ed25519"
@@ -115,6 +117,117 @@ func opCliGenDir(a []Sx) Sx {
 	return L(Sym("ok"), Bool(derr == nil), L(xs...))
 }
 
+// cli_gen_har ver primary|() ((url method status ((name value)...) text b64)...)
+func opCliGenHar(a []Sx) Sx {
+	d, clean := tmpDir()
+	defer clean()
+	type nvp struct {
+		Name  string `json:"name"`
+		Value string `json:"value"`
+	}
+	entries := []interface{}{}
+	for _, e := range a[2].L {
+		hs := []nvp{}
+		for _, h := range e.L[3].L {
+			hs = append(hs, nvp{string(h.L[0].B), string(h.L[1].B)})
+		}
+		content := map[string]interface{}{"text": string(e.L[4].B), "mimeType": "text/plain", "size": len(e.L[4].B)}
+		if e.L[5].Int() != 0 {
+			content["encoding"] = "base64"
+		}
+		entries = append(entries, map[string]interface{}{
+			"request":  map[string]interface{}{"method": string(e.L[1].B), "url": string(e.L[0].B), "headers": []nvp{{"Accept", "*/*"}, {":authority", "example.com"}, {"Cookie", "a=b"}}},
+			"response": map[string]interface{}{"status": e.L[2].Int(), "headers": hs, "content": content},
+		})
+	}
+	js, err := json.Marshal(map[string]interface{}{"log": map[string]interface{}{"version": "1.2", "entries": entries}})
+	if err != nil {
+		return L(Sym("skip"))
+	}
+	har := filepath.Join(d, "in.har")
+	os.WriteFile(har, js, 0600)
+	out := filepath.Join(d, "out.wbn")
+	args := []string{"-version", string(a[0].B), "-har", har, "-o", out}
+	if a[1].K == 1 {
+		args = append(args, "-primaryURL", string(a[1].B), "-ignoreErrors")
+	}
+	if _, err := runTool(nil, nil, "gen-bundle", args...); err != nil {
+		return L(Sym("refused"))
+	}
+	fb, err := os.ReadFile(out)
+	if err != nil {
+		return fail("read output", err.Error())
+	}
+	b, err := bundle.Read(bytes.NewReader(fb))
+	if err != nil {
+		return fail("bundle.Read rejects gen-bundle output", err.Error())
+	}
+	_, derr := runTool(nil, nil, "dump-bundle", "-i", out)
+	xs := []Sx{}
+	for _, e := range b.Exchanges {
+		xs = append(xs, L(B([]byte(e.Request.URL.String())), Zi(int64(e.Response.Status)), B(e.Response.Body)))
+	}
+	sort.SliceStable(xs, func(i, j int) bool { return bytes.Compare(xs[i].L[0].B, xs[j].L[0].B) < 0 })
+	return L(Sym("ok"), Bool(derr == nil), L(xs...))
+}
+
+// cli_sign_refuse kind: inputs for which sign-bundle signatures-section must refuse rather than
+// emit a bundle that does not verify.  kind: keymismatch | rs0 | rsneg | rs16385 | emptydigest
+func opCliSignRefuse(a []Sx) Sx {
+	d, clean := tmpDir()
+	defer clean()
+	env := []string{"WEB_BUNDLE_SIGNING_PASSPHRASE=secret passphrase"}
+	kind := string(a[0].B)
+	root := filepath.Join(d, "root")
+	os.MkdirAll(root, 0755)
+	os.WriteFile(filepath.Join(root, "index.html"), []byte("<html>hi</html>"), 0644)
+	os.WriteFile(filepath.Join(root, "a.txt"), bytes.Repeat([]byte("x"), 40000), 0644)
+	wbn := filepath.Join(d, "in.wbn")
+	gargs := []string{"-version", "b2", "-dir", root, "-baseURL", "https://example.com/site/", "-o", wbn}
+	if kind == "emptydigest" {
+		gargs = append(gargs, "-headerOverride", "Digest:")
+	}
+	if se, err := runTool(env, nil, "gen-bundle", gargs...); err != nil {
+		return fail("gen-bundle", se)
+	}
+	forms, _ := writeKeyForms(d, elliptic.P256(), "example.com")
+	var cc bytes.Buffer
+	if se, err := runTool(env, &cc, "gen-certurl", "-pem", filepath.Join(d, "cert.pem"), "-ocsp", filepath.Join(d, "ocsp.der")); err != nil {
+		return fail("gen-certurl", se)
+	}
+	certCbor := filepath.Join(d, "cert.cbor")
+	os.WriteFile(certCbor, cc.Bytes(), 0600)
+	keyPath := forms["sec1"]
+	if kind == "keymismatch" {
+		d2 := filepath.Join(d, "other")
+		os.MkdirAll(d2, 0755)
+		other, _ := writeKeyForms(d2, []elliptic.Curve{elliptic.P256(), elliptic.P384()}[a[1].Int()%2], "example.com")
+		keyPath = other["sec1"]
+	}
+	rs := "16"
+	switch kind {
+	case "rs0":
+		rs = "0"
+	case "rsneg":
+		rs = "-1"
+	case "rs16385":
+		rs = "16385"
+	}
+	signed := filepath.Join(d, "signed.wbn")
+	if _, err := runTool(env, nil, "sign-bundle", "signatures-section", "-i", wbn, "-o", signed, "-certificate", certCbor, "-privateKey", keyPath, "-miRecordSize", rs); err != nil {
+		return L(Sym("refused"))
+	}
+	var do bytes.Buffer
+	se, err := runTool(env, &do, "dump-bundle", "-i", signed, "-contentText=false")
+	if err != nil {
+		return fail("sign-bundle emitted a bundle dump-bundle rejects", se)
+	}
+	if strings.Contains(do.String(), "verification error") || strings.Contains(do.String(), "[Not signed]") {
+		return fail("sign-bundle emitted a bundle that does not verify", "")
+	}
+	return L(Sym("signed_and_verifies"))
+}
+
 type cliKeys struct {
 	dir               string
 	ecPriv            *ecdsa.PrivateKey
@@ -225,6 +338,9 @@ func opCliChain(a []Sx) Sx {
 		gargs := []string{"-version", string(a[1].B), "-dir", root, "-baseURL", "https://example.com/site/", "-o", wbn}
 		if a[1].IsSym("b1") {
 			gargs = append(gargs, "-primaryURL", "https://example.com/site/", "-ignoreErrors")
+			if len(a) > 5 && a[5].Int() != 0 {
+				gargs = append(gargs, "-manifestURL", "https://example.com/site/manifest.json")
+			}
 		}
 		if se, err := runTool(env, nil, "gen-bundle", gargs...); err != nil {
 			return fail("gen-bundle", se)
@@ -336,7 +452,71 @@ func genC20(r *Rng, tier string) []Case {
 		if i%4 == 0 {
 			// sign the same kind of tree with both sub-commands
 			simple := []Sx{L(B([]byte("")), Zi(1), B(nil)), L(B([]byte("index.html")), Zi(0), B([]byte("<html>hi</html>"))), L(B([]byte("a b#c.txt")), Zi(0), B(r.Bytes(100))), L(B([]byte("sub")), Zi(1), B(nil)), L(B([]byte("sub/x?.js")), Zi(0), B(r.Bytes(5000)))}
-			cs = append(cs, Case{"cli_chain", []Sx{Sym("signbundle"), Sym(ver), L(simple...), Sym([]string{"sec1", "pkcs8", "encrypted"}[r.Intn(3)]), Zi(int64([]int{1, 16, 4096, 16384}[r.Intn(4)]))}})
+			cs = append(cs, Case{"cli_chain", []Sx{Sym("signbundle"), Sym(ver), L(simple...), Sym([]string{"sec1", "pkcs8", "encrypted"}[r.Intn(3)]), Zi(int64([]int{1, 16, 4096, 16384}[r.Intn(4)])), Zi(int64(r.Intn(2)))}})
+		}
+	}
+	// a b1 bundle with a manifest section, signed and dumped
+	{
+		simple := []Sx{L(B([]byte("")), Zi(1), B(nil)), L(B([]byte("index.html")), Zi(0), B([]byte("<html>hi</html>"))), L(B([]byte("manifest.json")), Zi(0), B([]byte("{}")))}
+		cs = append(cs, Case{"cli_chain", []Sx{Sym("signbundle"), Sym("b1"), L(simple...), Sym("sec1"), Zi(16), Zi(1)}})
+	}
+	// inputs sign-bundle must refuse rather than emit a bundle that does not verify
+	for i, k := range []string{"keymismatch", "keymismatch", "rs0", "rsneg", "rs16385", "emptydigest"} {
+		cs = append(cs, Case{"cli_sign_refuse", []Sx{Sym(k), Zi(int64(i))}})
+	}
+	// HAR captures: GET / non-GET entries, banned and pseudo headers, base64 bodies, repeated URLs,
+	// odd statuses, header values outside ASCII
+	nh := 30
+	if tier == "thorough" {
+		nh = 400
+	}
+	hnames := []string{"Content-Type", "content-length", "Server", "X-Custom", ":status", "Set-Cookie", "Connection", "Keep-Alive", "Cache-Control", "ETag", "Variants", "Variant-Key", "Strict-Transport-Security", "Public-Key-Pins", "X-Empty"}
+	for i := 0; i < nh; i++ {
+		ents := []Sx{}
+		for j := 1 + r.Intn(5); j > 0; j-- {
+			u := []string{"https://example.com/", "https://example.com/a.js", "https://example.com/img/x.png?v=1", "https://cdn.example.org/lib.css", "https://example.com/a%20b", "http://example.com/plain"}[r.Intn(6)]
+			if r.Chance(1, 15) {
+				u = []string{"https://example.com/#frag", "https://user:pw@example.com/", "/relative"}[r.Intn(3)]
+			}
+			method := "GET"
+			if r.Chance(1, 5) {
+				method = []string{"POST", "HEAD", "get", "OPTIONS"}[r.Intn(4)]
+			}
+			status := []int{200, 200, 200, 404, 301, 304, 204, 100, 999}[r.Intn(9)]
+			if r.Chance(1, 12) {
+				status = []int{0, 99, 1000, -1}[r.Intn(4)]
+			}
+			hs := []Sx{}
+			for k := r.Intn(5); k > 0; k-- {
+				v := string(asciiBytes(r, r.Intn(12)))
+				if r.Chance(1, 10) {
+					v = []string{"caf\u00e9", "\u65e5\u672c", "na\u00efve; q=1"}[r.Intn(3)]
+				}
+				hs = append(hs, L(B([]byte(hnames[r.Intn(len(hnames))])), B([]byte(v))))
+			}
+			var text []byte
+			b64 := 0
+			switch r.Intn(4) {
+			case 0:
+				text = []byte("<html>" + string(alnumBytes(r, r.Intn(40))) + "</html>")
+			case 1:
+				text = []byte("caf\u00e9 \u65e5\u672c " + string(alnumBytes(r, r.Intn(10))))
+			case 2:
+				text = []byte(base64.StdEncoding.EncodeToString(r.Bytes(r.Intn(60))))
+				b64 = 1
+			case 3:
+				text = []byte(base64.StdEncoding.EncodeToString(r.Bytes(1 + r.Intn(30))))
+				b64 = 1
+				if r.Chance(1, 3) { // damaged base64
+					text = append(text[:len(text)-1], []byte{'!', '=', '\n'}[r.Intn(3)])
+				}
+			}
+			ents = append(ents, L(B([]byte(u)), B([]byte(method)), Zi(int64(status)), L(hs...), B(text), Zi(int64(b64))))
+		}
+		if i%4 == 3 {
+			cs = append(cs, Case{"cli_gen_har", []Sx{Sym("b1"), B([]byte("https://example.com/")), L(ents...)}})
+		} else {
+			cs = append(cs, Case{"cli_gen_har", []Sx{Sym("b2"), L(), L(ents...)}})
 		}
 	}
 	// path escaping against net/url directly
@@ -367,6 +547,8 @@ func genC20(r *Rng, tier string) []Case {
 func init() {
 	regOp("cli_gen_dir", opCliGenDir)
 	regOp("cli_chain", opCliChain)
+	regOp("cli_gen_har", opCliGenHar)
+	regOp("cli_sign_refuse", opCliSignRefuse)
 	regOp("escape_path", func(a []Sx) Sx { return B([]byte((&url.URL{Path: string(a[0].B)}).EscapedPath())) })
 	regGen("C20", genC20)
 }
